@@ -6,6 +6,7 @@ import sys, os, subprocess, json, shutil
 sd = os.path.abspath(sys.argv[1]); ids = sys.argv[2:]
 WT = "/tmp/mut/_verify"
 def sh(cmd, **kw): return subprocess.run(cmd, shell=True, stdout=subprocess.PIPE, stderr=subprocess.STDOUT, text=True, errors="replace", **kw)
+DEMOCWD = "/tmp/mut/_democwd"; os.makedirs(DEMOCWD, exist_ok=True)     # demos write scratch files into their working directory
 res = {"seeded": sd, "demo_flags": os.environ.get("DEMO_FLAGS", "")}
 if not os.path.isdir(WT):
     r = sh("/verif/tools/mkworktree.sh %s" % WT); res["mkworktree"] = r.stdout[-200:]
@@ -15,12 +16,12 @@ sh("git -C %s checkout -q --detach %s" % (WT, head))
 patch = os.path.join(sd, "patch.diff"); demo = os.path.join(sd, "demo.cpp")
 # unpatched demo
 XF = os.environ.get("DEMO_FLAGS", "")
-r = sh("g++ -std=c++11 -w %s -I%s/include %s %s/src/*.cpp -o /tmp/mut/_demo0 && /tmp/mut/_demo0" % (XF, WT, demo, WT), timeout=900)
+r = sh("g++ -std=c++11 -w %s -I%s/include %s %s/src/*.cpp -o /tmp/mut/_demo0 && /tmp/mut/_demo0" % (XF, WT, demo, WT), timeout=900, cwd=DEMOCWD)
 res["demo_without_change_rc"] = r.returncode
 r = sh("git -C %s apply %s" % (WT, patch)); res["apply"] = r.returncode
 r = sh("cmake --build %s/_build -j8 > /dev/null 2>&1; cd %s/_build && ctest 2>&1 | tail -3" % (WT, WT), timeout=1200)
 res["suite_with_change"] = "100% tests passed" in r.stdout
-r = sh("g++ -std=c++11 -w %s -I%s/include %s %s/src/*.cpp -o /tmp/mut/_demo1 && /tmp/mut/_demo1" % (XF, WT, demo, WT), timeout=900)
+r = sh("g++ -std=c++11 -w %s -I%s/include %s %s/src/*.cpp -o /tmp/mut/_demo1 && /tmp/mut/_demo1" % (XF, WT, demo, WT), timeout=900, cwd=DEMOCWD)
 res["demo_with_change_rc"] = r.returncode; res["demo_output"] = r.stdout[-300:]
 sh("git -C %s checkout -- src include" % WT)
 res["confirmed"] = res["demo_without_change_rc"] == 0 and res["demo_with_change_rc"] != 0 and res["suite_with_change"] and res["apply"] == 0
